@@ -357,6 +357,13 @@ Section Model.
   Definition target (o : sout) : dict :=
     match o_res o with Some t => t | None => o_recv o end.
 
+  (* a multi-keyword helper got through n of its `total` keywords and left the
+     state t: all of them when it succeeds (t = the object worked on), fewer
+     when a keyword fails (t = the receiver, if the call was in place) *)
+  Definition stops_at (out : sout) (ip : bool) (n total : nat) (t : dict) : Prop :=
+    (o_err out = None -> n = total /\ target out = t) /\
+    (o_err out <> None -> (n < total)%nat /\ (ip = true -> o_recv out = t)).
+
   (* a history: after a copy-on-write operation the run goes on with the copy
      (follow) or with the original *)
   Definition next_recv (follow : bool) (o : sout) : dict :=
